@@ -213,10 +213,18 @@ def asm_format_leg(ctx, rng, scratch, i):
     plain = gtext.gen_assembly(rng, tpf_ok=True)
     p = scratch / f"af{i}.agp"
     p.write_text(agp_ref.format(plain))
+    # several input files on one command line: processed in command-line order
+    more = []
+    for k in range(rng.randint(1, 3)):
+        q = scratch / f"af{i}-{rng.choice('abcxyz')}{k}.agp"
+        q.write_text(agp_ref.format(gtext.gen_assembly(rng, tpf_ok=True)))
+        more.append(q)
+    files = [p, *more]
+    rng.shuffle(files)
     ctx.case()
     outs = []
-    for hs, inproc in (("0", True), ("1", False), ("4242", False)):
-        r = cli_runs.run_asm_format([p, "-f", "TPF", "--qc-overlaps"], inproc=inproc) if inproc else _asm_format_sub(p, hs)
+    for hs, inproc in (("0", True), ("1", False), ("4242", False), ("7", False)):
+        r = cli_runs.run_asm_format([*files, "-f", "TPF", "--qc-overlaps"], inproc=inproc) if inproc else _asm_format_sub(files, hs)
         outs.append((r["exit_code"], r["stdout"], r["stderr"]))
     ctx.count("axis:asm-format-hash-seed")
     ctx.nontrivial(["asm-format", plain])
@@ -224,13 +232,14 @@ def asm_format_leg(ctx, rng, scratch, i):
         ctx.violation("asm-format-output-depends-on-hash-seed-or-interpreter", f"{outs}", {"kind": "asm-format", "asm": plain})
     else:
         ctx.count("asm-format-ok")
-    p.unlink()
+    for q in files:
+        q.unlink()
 
 
-def _asm_format_sub(p, hs):
+def _asm_format_sub(files, hs):
     import subprocess
 
-    cp = subprocess.run([env.PYTHON, "-m", "tola.assembly.scripts.asm_format", str(p), "-f", "TPF", "--qc-overlaps"], env=env.child_env(hashseed=hs), stdout=subprocess.PIPE, stderr=subprocess.PIPE, timeout=300)
+    cp = subprocess.run([env.PYTHON, "-m", "tola.assembly.scripts.asm_format", *[str(f) for f in files], "-f", "TPF", "--qc-overlaps"], env=env.child_env(hashseed=hs), stdout=subprocess.PIPE, stderr=subprocess.PIPE, timeout=300)
     return {"exit_code": cp.returncode, "stdout": cp.stdout.decode(), "stderr": cp.stderr.decode()}
 
 
